@@ -207,53 +207,49 @@ def step (ph : Ph) : Ev → Option Ph
 def accepts (ev : List Ev) : Bool :=
   (ev.foldl (fun (st : Option Ph) e => st.bind (fun ph => step ph e)) (some .init)).isSome
 
-def isKillIssued : Ev → Bool | .issued _ .kill _ _ => true | _ => false
-
-/-- killed=true only if a kill() had been issued before on_stop began -/
-def killedOnlyIfKill (ev : List Ev) : Bool :=
-  match idxOf? isStopStart ev with
-  | some p => (match ev[p]? with | some (.stopStart true) => anyBefore isKillIssued ev p | _ => true)
-  | none => true
-
-/-- on_stop ran iff the actor ended for one of the four reasons (not after a failed on_start, not
-    after a panic outside on_stop) -/
-def stopIffCause (ev : List Ev) : Bool :=
-  match ev.findSome? (fun | .joined o => some o | _ => none) with
-  | none => true
-  | some o =>
-    let ran := ev.any isStopStart
-    match o with
-    | some (.Completed _ _) => ran
-    | some (.Failed _ _ .OnStart _) => !ran
-    | some (.Failed _ _ _ _) => ran
-    | none => ran == ev.any (fun | .stopEnd .panic => true | _ => false)
-
-def ok (t : Trace) : Bool := accepts t.ev && killedOnlyIfKill t.ev && stopIffCause t.ev
 end C04
 
 /-! ### C05 — ActorResult truthfully reports how the actor ended -/
 namespace C05
 
-def hookLog (ev : List Ev) : List Hook :=
-  ev.filterMap fun
-    | .startEnd .ok => some .start
-    | .handlerStart m => some (.handler m)
-    | .runEnd k _ => some (.run k)
-    | _ => none
+/-- what the hook events of a trace say happened -/
+structure Summ where
+  panic : Bool := false
+  startErr : Bool := false
+  killed : Option Bool := none       -- the argument on_stop was called with
+  stopOut : Option SOut := none
+  log : List Hook := []              -- state left on the actor instance by the hooks that ran
+  runErr : Bool := false
+  joined : List Outcome := []
+  stopPanic : Bool := false
+  deriving DecidableEq, Repr
 
-def stopKilled (ev : List Ev) : Option Bool := ev.findSome? fun | .stopStart k => some k | _ => none
-def stopOut (ev : List Ev) : Option SOut := ev.findSome? fun | .stopEnd o => some o | _ => none
+def upd (m : Summ) : Ev → Summ
+  | .startEnd .ok => { m with log := m.log ++ [.start] }
+  | .startEnd .err => { m with startErr := true }
+  | .startEnd .panic => { m with panic := true }
+  | .handlerStart mid => { m with log := m.log ++ [.handler mid] }
+  | .handlerEnd _ .panic => { m with panic := true }
+  | .runEnd k .panic => { m with panic := true, log := m.log ++ [.run k] }
+  | .runEnd k .err => { m with runErr := true, log := m.log ++ [.run k] }
+  | .runEnd k _ => { m with log := m.log ++ [.run k] }
+  | .stopStart k => { m with killed := m.killed.or (some k) }
+  | .stopEnd .panic => { m with panic := true, stopPanic := true }
+  | .stopEnd o => { m with stopOut := m.stopOut.or (some o) }
+  | .joined o => { m with joined := m.joined ++ [o] }
+  | _ => m
+
+def summ (ev : List Ev) : Summ := ev.foldl upd {}
 
 /-- what the JoinHandle must produce, computed from the hook events alone -/
-def expected (ev : List Ev) : Option Outcome :=
-  if ev.any isPanicEv then some none
-  else if ev.any (fun | .startEnd .err => true | _ => false) then some (some (.Failed none .start .OnStart false))
+def expectedOf (m : Summ) : Option Outcome :=
+  if m.panic then some none
+  else if m.startErr then some (some (.Failed none .start .OnStart false))
   else
-    match stopKilled ev, stopOut ev with
+    match m.killed, m.stopOut with
     | some k, some so =>
-      let log := hookLog ev ++ [.stop k]
-      let runErr := ev.any isRunErr
-      some (some (match runErr, so with
+      let log := m.log ++ [.stop k]
+      some (some (match m.runErr, so with
         | true, .ok => .Failed (some log) .run .OnRun false
         | true, _ => .Failed (some log) .run .OnRunThenOnStop false
         | false, .ok => .Completed log k
@@ -261,10 +257,39 @@ def expected (ev : List Ev) : Option Outcome :=
     | _, _ => none
 
 def ok (t : Trace) : Bool :=
-  match t.ev.findSome? (fun | .joined o => some o | _ => none) with
-  | none => true
-  | some o => expected (t.ev.filter (fun e => !isJoined e)) == some o
+  let m := summ t.ev
+  match m.joined with
+  | [] => true
+  | [o] => expectedOf m == some o
+  | _ => false
 end C05
+
+/-! ### C04 (continued): on_stop's argument and on_stop-iff-cause, on the summary of the hook events -/
+namespace C04
+
+/-- killed=true only if a kill() had been issued before on_stop began: fold state (kill seen, ok) -/
+def killStep (st : Bool × Bool) : Ev → Bool × Bool
+  | .issued _ .kill _ _ => (true, st.2)
+  | .stopStart true => (st.1, st.2 && st.1)
+  | _ => st
+
+def killedOnlyIfKill (ev : List Ev) : Bool := (ev.foldl killStep (false, true)).2
+
+/-- on_stop ran iff the actor ended for one of the four reasons: not after a failed on_start, and
+    after a panic only if the panic was in on_stop itself -/
+def stopIffCause (ev : List Ev) : Bool :=
+  let m := C05.summ ev
+  match m.joined with
+  | [o] =>
+    (match o with
+     | some (.Completed _ _) => m.killed.isSome
+     | some (.Failed _ _ .OnStart _) => !m.killed.isSome
+     | some (.Failed _ _ _ _) => m.killed.isSome
+     | none => m.killed.isSome == m.stopPanic)
+  | _ => true
+
+def ok (t : Trace) : Bool := accepts t.ev && killedOnlyIfKill t.ev && stopIffCause t.ev
+end C04
 
 /-! ### C06 — kill() pre-empts the mailbox and never blocks -/
 namespace C06
